@@ -318,3 +318,74 @@ Theorem C15_flow_async_bind_anonymous_state : forall fuel (legs : list leg) srv 
   end.
 Proof. exact flow_async_bind_anonymous_state. Qed.
 Print Assumptions C15_flow_async_bind_anonymous_state.
+
+(* =====================================================================================================
+   7. PROGRESS (the theorems 1-5 above are upper bounds: what is sent / fed / stepped AT MOST; this is the lower bound).
+   A leg ENDS the handshake when the context is complete after it, or -- for every leg but the first, whose token goes into the Bind
+   whatever it is -- when it yields an empty token (stops_here).  A bind() that returns has stepped the provider exactly up to and
+   including the FIRST such leg: tokens are fed back for as long as the context is incomplete and tokens keep coming, and no longer.
+   (A bind_run that returned `Ok rs` right after the first ack, without the alter loop, would satisfy 1-5 and C15_result; it violates
+   both statements below whenever the first leg is incomplete: C15_progress_excludes_early_return.)
+   ===================================================================================================== *)
+From V Require Import Proofs.C15Progress.
+
+Theorem C15_progress : forall l ls srv ctxs rs s, bind_run true (l :: ls) srv ctxs = (Ok rs, s) ->
+  exists lg, nth_error (l :: ls) (List.length (steps s) - 1) = Some lg /\
+    (leg_complete lg = true \/ ((2 <= List.length (steps s))%nat /\ leg_token lg = [])).
+Proof. exact progress. Qed.
+Print Assumptions C15_progress.
+
+(* with C15_stops (no step after a complete leg, no PDU for a later empty token) this pins the number of legs stepped *)
+Theorem C15_leg_count : forall l ls srv ctxs rs s, bind_run true (l :: ls) srv ctxs = (Ok rs, s) ->
+  stop_index false (l :: ls) = Some (List.length (steps s) - 1)%nat /\ (1 <= List.length (steps s))%nat.
+Proof. exact leg_count. Qed.
+Print Assumptions C15_leg_count.
+
+Example C15_ex_leg_count :
+  stop_index false [lg T1 false; lg T2 false; lg T3 true] = Some 2%nat /\          (* C15_ex_three_legs: three steps *)
+  stop_index false [lg T1 false; lg T2 false; lg [] true] = Some 2%nat /\          (* C15_ex_empty_final_token: three steps, two PDUs *)
+  stop_index false [lg [] false; lg T2 true] = Some 1%nat /\                       (* an empty FIRST token does not stop *)
+  stop_index false [lg T1 true; lg T2 true] = Some 0%nat /\
+  stop_index false [lg T1 false; lg T2 false] = None.                              (* never completes: bind cannot return Ok (KeyError) *)
+Proof. repeat split; reflexivity. Qed.
+
+(* the early-return mutant: on legs [T1 incomplete; T2 complete] it would return after the bind_ack with one step made; that outcome
+   meets neither conclusion, while bind_run makes the two steps *)
+Example C15_progress_excludes_early_return :
+  let legs := [lg T1 false; lg T2 true] in
+  let s_mut := {| trace := [SBind 4 (Some T1) [0]]; steps := [None]; sign := true; server := [RAlterResp [0] 7 None] |} in
+  ~ (exists x, nth_error legs (List.length (steps s_mut) - 1) = Some x /\
+       (leg_complete x = true \/ ((2 <= List.length (steps s_mut))%nat /\ leg_token x = []))) /\
+  stop_index false legs <> Some (List.length (steps s_mut) - 1)%nat /\
+  List.length (steps (snd (bind_run true legs [RBindAck [0] 7 (Some S1); RAlterResp [0] 7 None] [0]))) = 2%nat.
+Proof.
+  cbn. split; [|split; [discriminate|reflexivity]].
+  intros (x & Hx & [Hc|[Hn _]]); [inversion Hx; subst; discriminate|lia].
+Qed.
+
+(* =====================================================================================================
+   8. "A request is only issued on a context the server accepted", composed: bind() and then _process_bind_result (the order in
+   _sync_get_key / _async_get_key: C17_flow_sync_get_key) -- the context id the request will carry is one that the bind_ack of THIS
+   server accepted.  The same fact about the whole conversation of Model/Conversation.v (both connections, stated on the transcript:
+   a REQUEST is on the wire only if ..) is C17_request_on_accepted_context in Properties/C17.v.
+   ===================================================================================================== *)
+Theorem C15_request_context : forall auth legs srv ids desired rs s,
+  bind_run auth legs srv ids = (Ok rs, s) -> process_bind_result ids rs desired = Ok tt ->
+  exists fl tk rest i, srv = RBindAck rs fl tk :: rest /\ (i < List.length rs)%nat /\ nth i rs 1 = c_ACCEPTANCE /\
+    PySlice.index ids (Z.of_nat i) = Ok desired.
+Proof. exact bind_then_result. Qed.
+Print Assumptions C15_request_context.
+
+(* =====================================================================================================
+   9. Handshake.send_pdu's classification of a reply IS the class check of the source's _process_response: Model/Seal.process_pdu_as
+   (tied to the regenerated RpcClient._process_response for every resp_type: C16_flow_process_response_as) at resp_type = BindAck /
+   AlterContextResponse and encrypt_offsets = None (the bind stage), applied to the PDU the reply octets decode to.  reply_of_pdu is what
+   Handshake.v keeps of a decoded PDU (result codes, packet_flags, auth_value; Request / Bind / AlterContext count as "another type").
+   ===================================================================================================== *)
+From V Require Import Model.Pdu Model.Request Model.Bind Model.RpcDispatch Model.Seal Proofs.C15Classify.
+Theorem C15_send_pdu_classification : forall (unwrap : unwrap_fn) auth sign hdr resp p t sent e s rest,
+  pdu_unpack (S (length resp)) resp = Ok (p, t) -> server s = reply_of_pdu p :: rest ->
+  fst (send_pdu sent e s)
+  = (let* q := process_pdu_as (expect_ptype e) unwrap auth None sign hdr resp in Ok (triple_of_pdu q)).
+Proof. exact send_pdu_classification. Qed.
+Print Assumptions C15_send_pdu_classification.
